@@ -15,7 +15,7 @@ PROPS = {
                 "runIPServer listeners sharing the real timestamp store, gaps 10 ms..10 s (both sides of the 3 s interleave window), server clock offset from 0 to +-30 years with skew up to "
                 "+-100 ppm and steps between exchanges, worlds placed just before the 2036 era rollover, per-direction latency 0..21 ms plus long delays up to 2 s, drop/duplicate up to 30 %, "
                 "server-side missing/late kernel timestamps, optional ephemeral port reuse; non-trivial = at least two accepted exchanges were checked against ground truth; distinct = distinct event-log hash",
-        "required_probes": ["bound-checked", "interleaved-accepted", "basic-reply-to-interleaved-request", "measurement-failed", "near-era", "excluded-clock-step-inside-exchange", "scion-bound-checked", "scion-interleaved-accepted", "forwarded-without-timestamp", "client-kernel-tx-stamp-missing"],
+        "required_probes": ["bound-checked", "interleaved-accepted", "basic-reply-to-interleaved-request", "measurement-failed", "near-era", "excluded-clock-step-inside-exchange", "scion-bound-checked", "scion-interleaved-accepted", "forwarded-without-timestamp", "client-kernel-tx-stamp-missing", "returned-offset-checked"],
         "components": {"real": ["core/client IPClient, MeasureClockOffsetIP", "core/server runIPServer, handleRequest, updateTXTimestamp", "net/udp (cmsg parsers, ReadTXTimestamp)", "net/ntp"],
                        "stub": dict(STUBS_COMMON, **{"kernel UDP stack": "simnet (sockets, SO_REUSEPORT group, control messages, error queue)"})},
         "assumptions": ["rounding allowance 16 ns (two truncating 2^-32 s conversions per timestamp and up to eight 1 ns receive-timestamp bumps)",
@@ -56,7 +56,7 @@ PROPS = {
         "assumptions": ["store capacity is lowered through a variable that replaces the uses of the constant tssCap at build time; the statement's 2^20 itself is only asserted by the thorough tier's capacity run",
                         "interleavings are explored at statement granularity; 'free of data races' is decided through atomicity (relation evaluated on snapshots at lock acquire/release), not with the race detector",
                         "snapshots are taken by the scheduler-side hooks without the lock"],
-        "required_probes": ["interleaved-served", "dropped-without-kernel-stamp", "kernel-stamp-recorded", "listener-identity-run", "cross-identity-request-served-basic", "same-instant-requests", "served-pair-is-kernel-pair", "echo-between-exchanges"],
+        "required_probes": ["interleaved-served", "dropped-without-kernel-stamp", "kernel-stamp-recorded", "listener-identity-run", "cross-identity-request-served-basic", "same-instant-requests", "served-pair-is-kernel-pair", "echo-between-exchanges", "clock-reading-nanoseconds-after-rx-stamp"],
     },
     "C07": {
         "level": "exploration",
@@ -88,7 +88,7 @@ PROPS = {
                 "path meta header, authenticator options of 0..40 bytes, timestamp options holding crafted control messages, SCMP types; CSPTP truncations with consistent length fields; NTS-KE records with lying lengths, "
                 "cookies of 0..2000 bytes, non-IP server names, short port and AEAD records; garbage instead of a TLS handshake). After each burst a well-formed sentinel request on the same socket must be answered "
                 "(listeners) or a clean exchange must still succeed (clients); non-trivial = at least two crafted inputs; distinct = distinct event-log hash",
-        "required_probes": ["sentinel-answered", "mode:ip-listener", "mode:scion-listener", "mode:csptp-listener", "mode:ntske-server", "mode:ip-client", "mode:scion-client", "mode:csptp-client", "mode:ntske-client", "sealed-request-odd-identifier", "ntske-client-over-scion", "sealed-request-hostile-encrypted-fields", "hostile-input-for-the-forwarder"],
+        "required_probes": ["sentinel-answered", "mode:ip-listener", "mode:scion-listener", "mode:csptp-listener", "mode:ntske-server", "mode:ip-client", "mode:scion-client", "mode:csptp-client", "mode:ntske-client", "sealed-request-odd-identifier", "ntske-client-over-scion", "sealed-request-hostile-encrypted-fields", "hostile-input-for-the-forwarder", "source-host-address-not-an-ip"],
         "components": {"real": ["core/server runIPServer, runSCIONServer (NTP, SCMP, forwarder), runCSPTPServerIP, handleKeyExchangeTLS", "core/client IPClient, SCIONClient, CSPTPClientIP", "net/ntske Fetcher, ReadData, cookies",
                                 "net/nts, net/ntp, net/csptp, net/udp (cmsg parsers), net/scion auth.go", "gopacket/slayers decoding"],
                        "stub": dict(STUBS_COMMON, **{"kernel UDP/TCP": "simnet", "hostile peers": "scripted"}),
@@ -108,7 +108,7 @@ PROPS = {
                 "with ISD-AS, host and ports exchanged); later runs (every third over SCION) sample first bytes, lengths 0..2048, source ports, network duplicates and missing / nanosecond-form receive and missing / late transmit kernel timestamps at the listeners; every 8th reply is fed back with a forged source; "
                 "non-trivial = at least one datagram answered and one ignored; distinct = distinct event-log hash",
         "exhaustive_part": "first byte x length class x trailer class (17920 cases) enumerated completely against the IP listeners when the batch has at least 187 runs and against the SCION listeners when it has at least 374 (quick tier: 600 runs)",
-        "required_probes": ["answered", "ignored", "nts-answered", "reflection-checked", "answered-over-scion", "mixed-address-families", "via-endhost-port", "from-well-known-port", "cookies-under-previous-key", "request-with-extension-headers", "udp-length-field-zero"],
+        "required_probes": ["answered", "ignored", "nts-answered", "reflection-checked", "answered-over-scion", "mixed-address-families", "via-endhost-port", "from-well-known-port", "cookies-under-previous-key", "request-with-extension-headers", "udp-length-field-zero", "valid-nts-request-of-chosen-length"],
         "components": {"real": ["core/server runIPServer, runSCIONServer, handleRequest", "net/ntp DecodePacket, ValidateRequest", "net/nts DecodePacket, ProcessRequest", "net/ntske cookies, Provider"],
                        "stub": dict(STUBS_COMMON, **{"kernel UDP stack": "simnet", "senders": "scripted datagram injector"})},
         "assumptions": ["over SCION the reply's path reversal is C13's clause; here its addressing (previous hop, ISD-AS, host, ports) is checked",
@@ -178,7 +178,7 @@ PROPS = {
                 "and each class of inadmissible one; every 8th run instead wires the whole IP service as timeservice.go does (sync.Run with syncConfig's defaults, 1..4 reference clocks from newNTPReferenceClockIP - real IPClient, "
                 "interleaved mode, Ntimed filter - each against real runIPServer listeners of its own host, with loss, duplication and delay) and checks one correction per round, the reference cap and the timeout; "
                 "non-trivial = at least 3 rounds completed or an inadmissible configuration refused; distinct = distinct event-log hash",
-        "required_probes": ["exact-round", "partial-round", "both-groups", "cutoff-suppressed", "clamped-ref", "clamped-peer", "inadmissible-refused", "wired-round", "wired-nonzero-correction", "real-clock-driver", "config-via-wiring", "peer-offset-exactly-at-cutoff"],
+        "required_probes": ["exact-round", "partial-round", "both-groups", "cutoff-suppressed", "clamped-ref", "clamped-peer", "inadmissible-refused", "wired-round", "wired-nonzero-correction", "real-clock-driver", "config-via-wiring", "peer-offset-exactly-at-cutoff", "sources-classified-by-the-wiring"],
         "components": {"real": ["core/sync Run, measureOffsetToRefClks", "core/client ReferenceClockClient.MeasureClockOffsets, collectMeasurements",
                                 "core/measurements FaultTolerantMidpoint", "base/timemath",
                                 "driver/clocks SystemClock (Drift, Sleep through an absolute timerfd, Epoch) in 1/4 of the model runs"],
@@ -213,7 +213,7 @@ PROPS = {
                 "writes one TLS record per piece; (b) six NTS-protected exchanges with losses whose datagrams are decoded and re-encoded in flight (NTP header identity, accessors, NTS field kinds/alignment vs the harness's walker); "
                 "(c) round trips of generated values through the real codecs: NTP headers (8/16-bit fields cycled with the run index), CSPTP messages and both TLVs with and without server state, plain and sealed server cookies with unequal key lengths, "
                 "NTS requests/responses at every pool level, NTS-KE records; non-trivial = at least two segmented decodes; distinct = distinct event-log hash",
-        "required_probes": ["segmentation-checked", "codecs-checked", "nts-datagram-monitored", "unaligned-cookie-request", "reused-destination-decoded", "response-beyond-usual-packet-size", "concurrent-packers"],
+        "required_probes": ["segmentation-checked", "codecs-checked", "nts-datagram-monitored", "unaligned-cookie-request", "reused-destination-decoded", "response-beyond-usual-packet-size", "concurrent-packers", "unknown-extension-field-skipped"],
         "components": {"real": ["net/ntske ReadData, ExchangeMsg.Pack, cookies", "net/nts EncodePacket/DecodePacket/Process*", "net/ntp EncodePacket/DecodePacket", "net/csptp Encode*/Decode*", "core/server newNTSKEMsg", "crypto/tls"],
                        "stub": dict(STUBS_COMMON, **{"TCP": "simnet streams with explicit cut positions"})},
         "assumptions": ["the 'for all field values' quantifier of the codec clauses is covered by generation only (8/16-bit fields are swept across the runs of a batch, wider fields are random); only the segmentation clause is a schedule property",
@@ -231,7 +231,7 @@ PROPS = {
                 "per round a tape-chosen subset of the paths is offered (some listed twice, some without a fingerprint, order shuffled), packets are lost at the routers in half of the runs; every 50th run first enumerates crypto.Sample "
                 "over every sequence of accepted draws for n <= 7, k <= 4 and RandIntn on the rejection boundary with crypto/rand.Reader replaced by a scripted reader; non-trivial = at least two rounds judged; distinct = distinct event-log hash",
         "exhaustive_part": "crypto.Sample: all draw sequences for n <= 7, k <= min(4,n) (each k-subset equally often); RandIntn residues/rejection at boundary words for n in {1,2,3,5,7,10,1000,2^20,2^31-1}",
-        "required_probes": ["round-checked", "multi-client-round", "sticky-path-kept", "reset-after-path-withdrawn", "no-path-error", "ftm-checked", "uniformity-enumerated", "reset-outside-interleaved-mode", "wired-reference-clock", "reset-in-round-without-paths", "rounds-seconds-to-minutes-apart", "quiescent-after-rounds"],
+        "required_probes": ["round-checked", "multi-client-round", "sticky-path-kept", "reset-after-path-withdrawn", "no-path-error", "ftm-checked", "uniformity-enumerated", "reset-outside-interleaved-mode", "wired-reference-clock", "reset-in-round-without-paths", "rounds-seconds-to-minutes-apart", "quiescent-after-rounds", "client-without-filter", "round-without-a-completed-measurement"],
         "components": {"real": ["core/client MeasureClockOffsetSCION, SCIONClient", "base/crypto Sample, RandIntn", "core/measurements FaultTolerantMidpoint", "core/server runSCIONServer"],
                        "stub": dict(STUBS_COMMON, **{"border routers": "one scripted relay per offered path", "path lookup": "paths are handed to MeasureClockOffsetSCION directly (Pather not run)", "crypto/rand": "seeded per run; scripted reader for the enumeration"})},
         "assumptions": ["uniformity is decided on the random seam (enumeration of draw sequences), not statistically; positions within the chosen subset are not required to be uniform",
@@ -249,7 +249,7 @@ PROPS = {
                 "clocks (success/error x before / 1ns before / at / 1ns after / after the deadline / on cancellation / never until released), "
                 "0..3 overlapping second collections, optionally a follow-up collection on the same collector; non-trivial = at least one clock; "
                 "distinct = distinct event-log hash",
-        "required_probes": ["returned-at-deadline", "returned-early", "overlap-refused", "second-round", "partial-round", "success-with-zero-timestamp"],
+        "required_probes": ["returned-at-deadline", "returned-early", "overlap-refused", "second-round", "partial-round", "success-with-zero-timestamp", "more-than-eight-clocks"],
         "components": {"real": ["core/client ReferenceClockClient.MeasureClockOffsets, collectMeasurements", "context.WithTimeout timers (raw, virtual time)"],
                        "stub": dict(STUBS_COMMON, **{"reference clocks": "scripted client.ReferenceClock implementations"})},
         "assumptions": ["goroutine quiescence is measured with runtime.NumGoroutine against a baseline taken inside the bubble"],
